@@ -286,11 +286,6 @@ theorem RealTextOk.value {o : RealOracle} (h : RealTextOk o) (v : Value) : RealT
 /-- the printed bytes of the document `j` are the UTF-8 encoding of a `value` text that denotes `x` -/
 def Renders (j : Json) (x : JVal) : Prop := ∃ cs, encode cs = j.render ∧ ValD cs x
 
-theorem ws_nil : Ws [] := by intro c h; cases h
-
-/-- a structural character without whitespace around it (the compact form) -/
-theorem sep_bare (c : Char) : Sep c [c] := ⟨[], [], ws_nil, ws_nil, rfl⟩
-
 theorem renders_null : Renders .null .null := ⟨_, by decide, .null⟩
 theorem renders_bool (b : Bool) : Renders (.bool b) (.bool b) := by
   cases b
